@@ -43,6 +43,11 @@ impl Interpreter {
             }
             ScriptBit::If { code, pass, fail } => {
                 let predicate = self.state.stack.pop_bool()?;
+                // OP_NOTIF runs its first branch when the condition is false
+                let predicate = match code {
+                    OpCodes::OP_NOTIF | OpCodes::OP_VERNOTIF => !predicate,
+                    _ => predicate,
+                };
                 self.state.executed_opcodes.push(*code);
 
                 if predicate {
